@@ -264,7 +264,9 @@ def _resolve_pick(pick: int, names: typing.List[str]) -> typing.Optional[str]:
 def run_case(case: dict, ctx: dict) -> dict:
     sandbox = os.path.join(ctx["scratch"], "disk")
     os.makedirs(sandbox)
-    world = nnvg.World(sandbox)
+    # (where the output directory is: nested, with a space and a non-ASCII character in its path now and then)
+    out_rel = (case.get("world") or {}).get("out_rel") or Rng(PROP, "out_rel", str(case.get("ops_seed", case.get("label")))).weighted([("out", 3), ("build/gen out", 1), ("o u t-\u00e9/x", 1)])
+    world = nnvg.World(sandbox, out_rel=out_rel)
     stats = {}  # type: typing.Dict[str, typing.Any]
     counters = {"ops": {}, "faults_fired": {}, "probes": {}, "status": {}}  # type: typing.Dict[str, typing.Dict[str, int]]
 
@@ -291,6 +293,7 @@ def run_case(case: dict, ctx: dict) -> dict:
         "umask": wr.choice([0o022, 0o002, 0o077, 0o027]),
         "buffering": wr.choice([None, None, 1, 16, 512, 8192]),
     }
+    world_knobs = dict(world_knobs, out_rel=out_rel)
     if explicit:
         templates = list(case["ops"])
         base = None
@@ -749,7 +752,7 @@ def reductions(case: dict) -> typing.Iterator[dict]:
     # neutral world knobs
     if case.get("world", {}).get("buffering") is not None or case.get("world", {}).get("umask") != 0o022:
         c = dict(case)
-        c["world"] = {"umask": 0o022, "buffering": None}
+        c["world"] = {"umask": 0o022, "buffering": None, "out_rel": case.get("world", {}).get("out_rel", "out")}
         yield c
     # drop DSDL files nobody refers to
     yield from nnvg.reduce_dsdl(case)
